@@ -3,6 +3,7 @@
 #include <matrix.h>
 #include <symmatrix.h>
 #include <sparse_matrix.h>
+#include <fast_sparse_matrix.h>
 #include <geometry.h>
 #include <mesh.h>
 #include <MeshIO.h>
@@ -60,6 +61,8 @@ template <typename F> static Wire guarded(F f) {
 // data()[k]=k : a read returns the slot it came from
 static Vector vecK(U n) { Vector v(n); for (size_t k=0;k<v.size();++k) v.data()[k]=(double)k; return v; }
 static Matrix matK(U n,U m) { Matrix M(n,m); for (size_t k=0;k<M.size();++k) M.data()[k]=(double)k; return M; }
+// sparse matrix with an entry in EVERY row and column (so that an offending column always holds a stored entry)
+static SparseMatrix spK(U n,U m) { SparseMatrix S(n,m); for (U i=0;i<n;++i) for (U j=0;j<m;++j) S(i,j)=1.0+i+10.0*j; return S; }
 static SymMatrix symK(U n) { SymMatrix S(n); for (size_t k=0;k<S.size();++k) S.data()[k]=(double)k; return S; }
 template <typename T> static ll slot_of_ref(T& obj,double& ref) { return (ll)(&ref-obj.data()); }
 
@@ -112,6 +115,16 @@ static Wire access(Reader& r) {
         case 50:{ Vector u=vecK(n); U vs=getU(r); u.kmult(vecK(vs)); return ok(-1); }
         case 51:{ Vector u=vecK(n); U vs=getU(r); u.outer_product(vecK(vs)); return ok(-1); }
         case 52:{ Vector u=vecK(n); U bn=getU(r),bm=getU(r); u*matK(bn,bm); return ok(-1); }
+        // binary operations of the other container pairs (guards partly implicit in the element accessors)
+        case 60:{ SparseMatrix S=spK(n,c); U vs=getU(r); S*vecK(vs); return ok(-1); }
+        case 61:{ SparseMatrix S=spK(n,c); U bn=getU(r),bm=getU(r); S*matK(bn,bm); return ok(-1); }
+        case 62:{ SparseMatrix S=spK(n,c); U sn=getU(r); S*symK(sn); return ok(-1); }
+        case 63:{ SparseMatrix S=spK(n,c); U bn=getU(r),bm=getU(r); S*spK(bn,bm); return ok(-1); }
+        case 64:{ SparseMatrix S=spK(n,c); U bn=getU(r),bm=getU(r); S+spK(bn,bm); return ok(-1); }
+        case 65:{ Matrix A=matK(n,c); U bn=getU(r),bm=getU(r); A*spK(bn,bm); return ok(-1); }
+        case 66:{ SparseMatrix S=spK(n,c); FastSparseMatrix F(S); U vs=getU(r); F*vecK(vs); return ok(-1); }
+        case 67:{ SparseMatrix S=spK(n,c); U vs=getU(r); S.transpose()*vecK(vs); return ok(-1); }
+        case 68:{ SparseMatrix S=spK(n,c); U i=getU(r), vs=getU(r); S.setlin(vecK(vs),i); return ok(-1); }
         case 53:{ Matrix A=matK(n,c); for (U i=0;i<std::min(n,c);++i) A(i,i)+=1000; A.inverse(); return ok(-1); }
         }
         } catch (std::invalid_argument&) { return Wire{0,-1}; }
